@@ -2,6 +2,7 @@
   Proofs/EnvRun — run number and run timestamps (for C10).
 -/
 import ControlModel.Proofs.EnvHooks
+import ControlModel.Model.EnvBodies
 import ControlModel.Spec.C10
 
 namespace EnvM
@@ -460,5 +461,223 @@ theorem controlApi_end_stamps (env : Env) (hooks : List Hook) (e : Ev) (b r : Bo
         exact ⟨hk.1.2 h1.1, hk.2.2 h1.2⟩
     split <;> exact hgoal
 
+
+
+/-! ### the task-level bodies, and runs that never reached RUNNING -/
+
+/-- The body part of `leaveState` IS `applyBody`: the hook passes of leave_<state> do not depend on the
+    body's outcome, and if they let the event go on (the body is reached), the environment returned is the
+    one the passes left, with the body's writes (`bodyWrites e b`) applied. -/
+theorem leaveState_body (env : Env) (hooks : List Hook) (e : Ev) (b : Bool) :
+    (leaveState env hooks e b).1 =
+      (if (leaveState env hooks e true).2.2 = none then applyBody (leaveState env hooks e true).1 e b
+       else (leaveState env hooks e true).1) ∧
+    ((leaveState env hooks e b).2.2 = some .cancelledBody ↔ ((leaveState env hooks e true).2.2 = none ∧ b = false)) := by
+  unfold leaveState
+  simp only
+  (repeat' split) <;> cases b <;> cases e <;> simp_all [applyBody, bodyWrites, BodyWrite.apply]
+
+/-- both end-of-run stamps are there (set, or present and empty), as they are from the first START_ACTIVITY on -/
+def EndPresent (v : Vars) : Prop := v.soeor ≠ .absent ∧ v.eoeor ≠ .absent
+
+theorem EndKeeps.present {a b : Vars} (h : EndKeeps a b) (hp : EndPresent a) : EndPresent b := ⟨h.1.1 hp.1, h.2.1 hp.2⟩
+
+theorem bkBefore_present (env : Env) (e : Ev) (r : Bool) (hp : EndPresent env.vars) : EndPresent (bkBefore env e r).1.vars := by
+  by_cases he : e = .START_ACTIVITY
+  · subst he
+    unfold bkBefore
+    simp only
+    split
+    · exact hp
+    · simp [tick, EndPresent]
+  · exact (bkBefore_keeps env e r he).present hp
+
+theorem beforeEvent_present (env : Env) (hooks : List Hook) (e : Ev) (r : Bool) (hp : EndPresent env.vars) :
+    EndPresent (beforeEvent env hooks e r).1.vars := by
+  have h1 : EndPresent (handleHooks env hooks (.before e) negW).1.vars := by rw [handleHooks_vars]; exact hp
+  have h2 := bkBefore_present (handleHooks env hooks (.before e) negW).1 e r h1
+  have h3 : EndPresent (handleHooks (bkBefore (handleHooks env hooks (.before e) negW).1 e r).1 hooks (.before e) posW).1.vars := by
+    rw [handleHooks_vars]; exact h2
+  unfold beforeEvent
+  simp only
+  (repeat' split) <;> first | exact h1 | exact h2 | exact h3
+
+/-- No transition — START_ACTIVITY included, however it ends — ever REMOVES an end-of-run stamp. -/
+theorem fsmEvent_present (env : Env) (hooks : List Hook) (e : Ev) (b r : Bool) (hp : EndPresent env.vars) :
+    EndPresent (fsmEvent env hooks e b r).1.vars := by
+  unfold fsmEvent
+  split
+  · exact hp
+  · rename_i d hd
+    simp only
+    have hb := beforeEvent_present env hooks e r hp
+    split
+    · exact hb
+    · have hl := leaveState_keeps (beforeEvent env hooks e r).1 hooks e b
+      split
+      · exact hl.present hb
+      · have hen := enterState_keeps { (leaveState (beforeEvent env hooks e r).1 hooks e b).1 with st := d } hooks
+        exact ((hl.trans hen).trans (afterEvent_keeps _ hooks e _)).present hb
+
+theorem dst_error (e : Ev) (s : St) (h : dst? e s = some .ERROR) : e = .GO_ERROR := by
+  cases e <;> cases s <;> simp [dst?] at h <;> rfl
+
+/-- However a TryTransition takes the environment to ERROR from another state, both end-of-run stamps are
+    set afterwards — whether the run was RUNNING or its START_ACTIVITY had been cancelled after the number
+    was handed out (the stamps are present and empty then). -/
+theorem fsmEvent_error_stamps (env : Env) (hooks : List Hook) (e : Ev) (b r : Bool)
+    (hne : env.st ≠ .ERROR) (hp : EndPresent env.vars)
+    (herr : (fsmEvent env hooks e b r).1.st = .ERROR) :
+    (fsmEvent env hooks e b r).1.vars.soeor.isVal = true ∧ (fsmEvent env hooks e b r).1.vars.eoeor.isVal = true := by
+  unfold fsmEvent at herr ⊢
+  cases hd : dst? e env.st with
+  | none => rw [hd] at herr; exact absurd herr hne
+  | some d =>
+    simp only [hd] at herr ⊢
+    have hbst := (beforeEvent_st env hooks e r).1
+    cases hbn : (beforeEvent env hooks e r).2.2 with
+    | some res => simp only [hbn] at herr; exact absurd (hbst.symm.trans herr) hne
+    | none =>
+      simp only [hbn] at herr ⊢
+      have hlst := (leaveState_st (beforeEvent env hooks e r).1 hooks e b).1
+      have hlk := leaveState_keeps (beforeEvent env hooks e r).1 hooks e b
+      cases hln : (leaveState (beforeEvent env hooks e r).1 hooks e b).2.2 with
+      | some res => simp only [hln] at herr; exact absurd ((hlst.trans hbst).symm.trans herr) hne
+      | none =>
+        simp only [hln] at herr ⊢
+        have hd' : d = .ERROR := by
+          rw [(afterEvent_st _ hooks e _).1, (enterState_st _ hooks).1] at herr
+          exact herr
+        subst hd'
+        have hev : e = .GO_ERROR := dst_error e env.st hd
+        have hne' : e ≠ .START_ACTIVITY := by rw [hev]; decide
+        have hbk := beforeEvent_keeps env hooks e r hne'
+        have hso := beforeEvent_sets_soeor env hooks e r (Or.inr hev) hbn hp.1
+        have hen := enterState_keeps { (leaveState (beforeEvent env hooks e r).1 hooks e b).1 with st := .ERROR } hooks
+        have hchain := hlk.trans hen
+        have hsoe : (enterState { (leaveState (beforeEvent env hooks e r).1 hooks e b).1 with st := .ERROR } hooks).1.vars.soeor.isVal = true :=
+          hchain.1.2 hso
+        have heo : (enterState { (leaveState (beforeEvent env hooks e r).1 hooks e b).1 with st := .ERROR } hooks).1.vars.eoeor ≠ .absent :=
+          hchain.2.1 (hbk.2.1 hp.2)
+        exact ⟨(afterEvent_keeps _ hooks e _).1.2 hsoe, afterEvent_sets_eoeor _ hooks e _ (Or.inr hev) heo⟩
+
+/-- Through the API glue too, unless the glue forced the state. -/
+theorem controlApi_error_stamps (env : Env) (hooks : List Hook) (e : Ev) (b r : Bool)
+    (hne : env.st ≠ .ERROR) (hp : EndPresent env.vars)
+    (hnf : forcedByGlue env hooks e b r = false)
+    (herr : (controlApi env hooks e b r).1.st = .ERROR) :
+    (controlApi env hooks e b r).1.vars.soeor.isVal = true ∧ (controlApi env hooks e b r).1.vars.eoeor.isVal = true := by
+  unfold forcedByGlue at hnf
+  unfold controlApi at herr ⊢
+  simp only at herr ⊢
+  split at herr
+  · rename_i hok
+    rw [if_pos hok]
+    exact fsmEvent_error_stamps env hooks e b r hne hp herr
+  · rename_i hok
+    rw [if_neg hok]
+    have hmv : (tryTransition (tryTransition env hooks e b r).1 hooks .GO_ERROR true false).2.2.moved = true := by
+      simp only [Bool.and_eq_false_iff, Bool.not_eq_false', Bool.not_eq_eq_eq_not, Bool.not_true] at hnf
+      rcases hnf with h | h
+      · exact absurd h hok
+      · simpa using h
+    have hgoal : (fsmEvent (fsmEvent env hooks e b r).1 hooks .GO_ERROR true false).1.vars.soeor.isVal = true ∧
+        (fsmEvent (fsmEvent env hooks e b r).1 hooks .GO_ERROR true false).1.vars.eoeor.isVal = true := by
+      have hp' := fsmEvent_present env hooks e b r hp
+      obtain ⟨_, hk' | ⟨d', hd', hst', _⟩⟩ := fsmEvent_st (fsmEvent env hooks e b r).1 hooks .GO_ERROR true false
+      · have := keeps_not_moved _ hk'.2
+        unfold tryTransition at hmv; rw [this] at hmv; cases hmv
+      · have hne' : (fsmEvent env hooks e b r).1.st ≠ .ERROR := by
+          intro h; rw [h] at hd'; simp [dst?] at hd'
+        exact fsmEvent_error_stamps _ hooks .GO_ERROR true false hne' hp' (by rw [hst', goError_dst _ _ hd'])
+    split <;> exact hgoal
+
+
+theorem beforeEvent_not_body (env : Env) (hooks : List Hook) (e : Ev) (r : Bool) :
+    (beforeEvent env hooks e r).2.2 ≠ some .cancelledBody := by
+  unfold beforeEvent
+  simp only
+  (repeat' split) <;> simp
+
+theorem dst_start (s d : St) (h : dst? .START_ACTIVITY s = some d) : s = .CONFIGURED := by
+  cases s <;> simp [dst?] at h <;> rfl
+
+/-- A before_START_ACTIVITY that lets the event go on has opened a run: number, start stamp, the three
+    later stamps present and empty — whatever the hooks. -/
+theorem beforeEvent_START_none (env : Env) (hooks : List Hook) (r : Bool)
+    (hn : (beforeEvent env hooks .START_ACTIVITY r).2.2 = none) :
+    (beforeEvent env hooks .START_ACTIVITY r).1.vars.rnVar = some (env.counter + 1) ∧
+    (beforeEvent env hooks .START_ACTIVITY r).1.vars.sosor = .val (env.clock + 1) ∧
+    (beforeEvent env hooks .START_ACTIVITY r).1.vars.eosor = .empty ∧
+    (beforeEvent env hooks .START_ACTIVITY r).1.vars.soeor = .empty ∧
+    (beforeEvent env hooks .START_ACTIVITY r).1.vars.eoeor = .empty := by
+  have hcore := handleHooks_core env hooks (.before .START_ACTIVITY) negW
+  have hcounter : (handleHooks env hooks (.before .START_ACTIVITY) negW).1.counter = env.counter := congrArg Core.counter hcore
+  have hclock : (handleHooks env hooks (.before .START_ACTIVITY) negW).1.clock = env.clock := congrArg Core.clock hcore
+  have hbk := bkBefore_START (handleHooks env hooks (.before .START_ACTIVITY) negW).1 hooks
+  rw [hcounter, hclock] at hbk
+  cases r with
+  | true =>
+    exfalso
+    have hb : (bkBefore (handleHooks env hooks (.before .START_ACTIVITY) negW).1 .START_ACTIVITY true).2.2 = true := by
+      simp [bkBefore]
+    unfold beforeEvent at hn
+    simp only [hb, if_true] at hn
+    revert hn
+    (repeat' split) <;> simp
+  | false =>
+    unfold beforeEvent at hn ⊢
+    simp only at hn ⊢
+    revert hn
+    (repeat' split) <;> intro hn <;>
+      first
+      | (cases hn; done)
+      | (simp only [handleHooks_vars]; exact ⟨hbk.2.2.2.1, hbk.2.2.2.2.1, hbk.2.2.2.2.2.1, hbk.2.2.2.2.2.2.1, hbk.2.2.2.2.2.2.2⟩)
+
+theorem leaveState_vars_of_not_running (env : Env) (hooks : List Hook) (e : Ev) (b : Bool) (h : env.st ≠ .RUNNING) :
+    (leaveState env hooks e b).1.vars = env.vars := by
+  unfold leaveState
+  simp only [h, if_false]
+  (repeat' split) <;> simp [handleHooks_vars]
+
+/-- A START_ACTIVITY cancelled by its body. -/
+theorem fsmEvent_failed_start (env : Env) (hooks : List Hook) (b r : Bool)
+    (h : (fsmEvent env hooks .START_ACTIVITY b r).2.2 = .cancelledBody) :
+    (fsmEvent env hooks .START_ACTIVITY b r).1.st = env.st ∧
+    (fsmEvent env hooks .START_ACTIVITY b r).1.rn = 0 ∧
+    (fsmEvent env hooks .START_ACTIVITY b r).1.vars.rnVar = some (env.counter + 1) ∧
+    (fsmEvent env hooks .START_ACTIVITY b r).1.vars.sosor = .val (env.clock + 1) ∧
+    (fsmEvent env hooks .START_ACTIVITY b r).1.vars.eosor = .empty ∧
+    (fsmEvent env hooks .START_ACTIVITY b r).1.vars.soeor = .empty ∧
+    (fsmEvent env hooks .START_ACTIVITY b r).1.vars.eoeor = .empty := by
+  unfold fsmEvent at h ⊢
+  cases hd : dst? .START_ACTIVITY env.st with
+  | none => rw [hd] at h; cases h
+  | some d =>
+    have hconf := dst_start env.st d hd
+    simp only [hd] at h ⊢
+    have hbst := (beforeEvent_st env hooks .START_ACTIVITY r).1
+    cases hbn : (beforeEvent env hooks .START_ACTIVITY r).2.2 with
+    | some res =>
+      simp only [hbn] at h
+      subst h
+      exact absurd hbn (beforeEvent_not_body env hooks .START_ACTIVITY r)
+    | none =>
+      simp only [hbn] at h ⊢
+      have hvars := beforeEvent_START_none env hooks r hbn
+      have hnr : (beforeEvent env hooks .START_ACTIVITY r).1.st ≠ .RUNNING := by rw [hbst, hconf]; decide
+      cases hln : (leaveState (beforeEvent env hooks .START_ACTIVITY r).1 hooks .START_ACTIVITY b).2.2 with
+      | none =>
+        simp only [hln] at h
+        revert h; split <;> intro h <;> cases h
+      | some res =>
+        simp only [hln] at h ⊢
+        subst h
+        have hb := leaveState_body (beforeEvent env hooks .START_ACTIVITY r).1 hooks .START_ACTIVITY b
+        have hreach := hb.2.mp hln
+        have hlv := leaveState_vars_of_not_running (beforeEvent env hooks .START_ACTIVITY r).1 hooks .START_ACTIVITY b hnr
+        refine ⟨((leaveState_st _ hooks .START_ACTIVITY b).1).trans hbst, ?_, ?_⟩
+        · rw [hb.1, if_pos hreach.1, hreach.2]; rfl
+        · rw [hlv]; exact hvars
 
 end EnvM
